@@ -337,6 +337,7 @@ async def _drive(spec, tr, wf, ctx=None, start=True):
             for kk, vv in list(pay.items()):
                 if vv == "{v}":
                     pay[kk] = ask.get("v", None)
+            pay = programs.dec(pay)
             ev = E.BY_NAME[rep["type"]](uid=rec.new_uid(), v=f"resp:{ask.get('v', None)}:{i}", **pay)
             rec.add("emit", how="external", step=None, bid=None, att=None, uid=ev.get("uid"), v=ev.get("v"), type=rep["type"],
                     target=rep.get("target"), parent=ask.get("uid", None), fields=pay)
@@ -359,7 +360,7 @@ async def _drive(spec, tr, wf, ctx=None, start=True):
                 if asyncio.iscoroutine(res):
                     await res
             return
-        pay = dict(x.get("pay") or {})
+        pay = programs.dec(dict(x.get("pay") or {}))
         ev = E.BY_NAME[x["type"]](uid=rec.new_uid(), v=x.get("v", f"ext@{x['at']}"), **pay)
         rec.add("emit", how="external", step=None, bid=None, att=None, uid=ev.get("uid"), v=ev.get("v"), type=x["type"],
                 target=x.get("target"), parent=None, fields=pay)
